@@ -39,6 +39,8 @@ pub enum PendDec {
     Cancel,
     Adv(u64),
     Inject(Vec<u8>),
+    /// time passes and, at that very instant, bytes arrive: the client is polled only afterwards
+    AdvInject(u64, Vec<u8>),
     Mismatch(String),
 }
 
@@ -318,6 +320,12 @@ fn drive<F: Future>(ctx: &Shared, fut: F) -> Outcome<F::Output> {
                 c.rec(json!({"e":"adv","to":vclock::now_ms(),"spin":false}));
             }
             PendDec::Inject(bytes) => {
+                c.inbound.extend(bytes.iter().copied());
+                c.rec(json!({"e":"b","bytes":bytes}));
+            }
+            PendDec::AdvInject(to, bytes) => {
+                vclock::set_ms(to);
+                c.rec(json!({"e":"adv","to":vclock::now_ms(),"spin":false}));
                 c.inbound.extend(bytes.iter().copied());
                 c.rec(json!({"e":"b","bytes":bytes}));
             }
